@@ -544,3 +544,18 @@ theorem mant_eq (mant : List Nat) (e : Int) : mantModel mant e = mantSpec mant e
       exact mant_unsigned mant e hns
 
 end BigDec
+
+namespace BigDec
+open Parse Spec.Numeral
+
+/-- the grammar specification in stages (definitional) -/
+theorem specParse_staged (s : List Nat) :
+    specParse s = (match cut [101, 69] s with
+      | (mant, expPart) =>
+        match (match expPart with
+          | none => some (0 : Int)
+          | some e => exponentValue e) with
+        | none => none
+        | some e => if e < -(2 ^ 127 : Int) ∨ e ≥ (2 ^ 127 : Int) then none else mantSpec mant e) := rfl
+
+end BigDec
